@@ -169,13 +169,19 @@ def variants_for(P, inst):
     mentioned = set()
     for i in range(1, inst.arg_count + 1):
         mentioned |= type_mentions(P, inst.locals[i], set(pairs))
+    from . import specs
+    sp = specs.spec_for(P, inst)
+    postf = None
+    if sp is not None:
+        base = specs.install(sp, base)
+        postf = specs.post(sp)
     if not mentioned:
-        return [(name, base, None)]
+        return [(name, base, postf)]
     out = []
     combos = [{}]
     for path in sorted(mentioned):
         combos = [dict(c, **{path: alt}) for c in combos for alt in pairs[path]]
     for c in combos:
         label = name + ':' + ','.join(f"{k.rsplit('::', 1)[1]}={v[0].rsplit('::', 1)[1]}" for k, v in sorted(c.items()))
-        out.append((label, with_alts(c, base), None))
+        out.append((label, with_alts(c, base), postf))
     return out
